@@ -6,6 +6,11 @@
 //!      parses it with the mesh-io reader (only the first `refs` element lines of a block carry a
 //!      reference column; `refs < count` is only expressible this way).
 //! out: `ok <size> | <indptr> | <indices> | d<data len> | bary <n|panic> used <m>` | `panic …`
+//! op:  `dualgen <threads> <2|3> <a> <b> <c> <p> <layout> <nblocks> <seed>` – LARGE meshes, regenerated
+//!      from the parameters (grid a x b [x c], split probability p/8, layout 0 = natural numbering /
+//!      1 = shuffled, top-dimensional elements cut into `nblocks` runs with lower-dimensional blocks
+//!      interleaved); the model declines (`skip large-n`), the oracle is applied in full.
+//! out: `ok <size> nnz <k> h <fnv64 of indptr,indices> | d<data len> | bary <n> used <m>`
 
 use crate::common::*;
 use std::collections::BTreeSet;
@@ -396,6 +401,200 @@ pub fn generate(ctx: &mut Ctx) {
             run_op(ctx, &op);
         }
     }
+
+    generate_large(ctx);
+}
+
+/// Parameters of a regenerated (large or many-block) mesh.
+#[derive(Clone, Debug)]
+struct GenP {
+    kind: usize,
+    a: usize,
+    b: usize,
+    c: usize,
+    p: u64,
+    layout: usize,
+    nb: usize,
+    seed: u64,
+}
+
+/// Cut into blocks with control over the layout: the top-dimensional elements, in soup order
+/// (natural numbering: row by row) or shuffled, are cut into `nb` contiguous runs (equal lengths
+/// with a shorter last run, or random cut points when shuffled); inside a run the elements are
+/// grouped by type (one block per type present). Lower-dimensional elements are cut into
+/// `nb / 4 + 1` runs in the same way and one such run follows every fourth top run.
+fn cut_blocks(rng: &mut Rng, mut s: Soup, shuffle: bool, nb: usize) -> (usize, Vec<Blk>) {
+    if shuffle {
+        rng.shuffle(&mut s.els);
+    }
+    let d = s.els.iter().map(|e| DIM[e.0]).max().unwrap_or(0);
+    let nn = s.nn;
+    let (top, low): (Vec<_>, Vec<_>) = s.els.into_iter().partition(|e| DIM[e.0] == d && e.0 != 1);
+    let mut runs = |els: Vec<(usize, Vec<usize>)>, k: usize| -> Vec<Vec<Blk>> {
+        let k = k.max(1);
+        let n = els.len();
+        let mut cuts: Vec<usize> = if shuffle {
+            (0..k - 1).map(|_| rng.usize(n + 1)).collect()
+        } else {
+            let len = (n + k - 1) / k;
+            (1..k).map(|i| (i * len).min(n)).collect()
+        };
+        cuts.push(0);
+        cuts.push(n);
+        cuts.sort_unstable();
+        let mut out = vec![];
+        for w in cuts.windows(2) {
+            let mut blocks: Vec<Blk> = vec![];
+            for (ty, nodes) in &els[w[0]..w[1]] {
+                match blocks.iter_mut().find(|b| b.ty == *ty) {
+                    Some(b) => {
+                        b.nodes.extend_from_slice(nodes);
+                        b.refs += 1;
+                    }
+                    None => blocks.push(Blk { ty: *ty, refs: 1, nodes: nodes.clone() }),
+                }
+            }
+            out.push(blocks);
+        }
+        out
+    };
+    let top_runs = runs(top, nb);
+    let mut low_runs = runs(low, nb / 4 + 1).into_iter();
+    let mut blocks = vec![];
+    for (i, r) in top_runs.into_iter().enumerate() {
+        blocks.extend(r);
+        if i % 4 == 1 {
+            if let Some(l) = low_runs.next() {
+                blocks.extend(l);
+            }
+        }
+    }
+    for l in low_runs {
+        blocks.extend(l);
+    }
+    if shuffle {
+        rng.shuffle(&mut blocks);
+    }
+    (nn, blocks)
+}
+
+fn gen_mesh(g: &GenP) -> (usize, Vec<Blk>) {
+    let mut rng = Rng::new(g.seed);
+    let s = if g.kind == 2 {
+        grid2d(&mut rng, g.a, g.b, g.p, true)
+    } else {
+        grid3d(&mut rng, g.a, g.b, g.c, g.p, true)
+    };
+    cut_blocks(&mut rng, s, g.layout == 1, g.nb)
+}
+
+fn format_gen(threads: usize, g: &GenP) -> String {
+    format!("dualgen {} {} {} {} {} {} {} {} {}", threads, g.kind, g.a, g.b, g.c, g.p, g.layout, g.nb, g.seed)
+}
+
+fn parse_gen(op: &str) -> Option<(usize, GenP)> {
+    let v: Vec<u64> = op.split_whitespace().skip(1).map(|t| t.parse().ok()).collect::<Option<_>>()?;
+    if !op.starts_with("dualgen ") || v.len() != 9 || v[0] == 0 || v[0] > 64 || (v[1] != 2 && v[1] != 3) {
+        return None;
+    }
+    if v[2] == 0 || v[3] == 0 || (v[1] == 3 && v[4] == 0) || v[2].saturating_mul(v[3]).saturating_mul(v[4].max(1)) > 2_000_000 {
+        return None;
+    }
+    Some((
+        v[0] as usize,
+        GenP {
+            kind: v[1] as usize,
+            a: v[2] as usize,
+            b: v[3] as usize,
+            c: v[4] as usize,
+            p: v[5].min(8),
+            layout: v[6] as usize,
+            nb: (v[7] as usize).clamp(1, 100_000),
+            seed: v[8],
+        },
+    ))
+}
+
+/// LARGE / CORNER stream: sizes above the usual block thresholds (2^12, 2^13, 2^14, 2^15, 36 450,
+/// 2^16, 2^17) and not multiples of them, block-aligned numberings (rows of 4096 / 8192 nodes),
+/// meshes stored as 100 … 600 blocks, node ids above 65 536, pools 1 / 2 / 3 / 16.
+fn generate_large(ctx: &mut Ctx) {
+    let g = |kind, a, b, c, p, layout, nb, seed| GenP { kind, a, b, c, p, layout, nb, seed };
+    // --- many blocks and a >4096-cell mesh as EXPLICIT ops: compared exactly with the Lean model
+    let mut explicit: Vec<(usize, GenP, &str)> = vec![
+        (2, g(2, 35, 35, 0, 4, 0, 100, 11), "corner:blocks-100"),
+        (3, g(2, 33, 37, 0, 8, 1, 255, 12), "corner:blocks-255"),
+        (16, g(3, 6, 6, 5, 4, 0, 256, 13), "corner:blocks-256"),
+        (1, g(2, 36, 35, 0, 0, 1, 257, 14), "corner:blocks-257"),
+        (2, g(3, 7, 6, 6, 2, 1, 300, 15), "corner:blocks-300"),
+        (3, g(2, 35, 36, 0, 5, 0, 600, 16), "corner:blocks-600"),
+        (16, g(2, 65, 64, 0, 0, 0, 1, 17), "large:4k-model"),
+    ];
+    if !ctx.quick() {
+        explicit.push((2, g(3, 9, 9, 9, 0, 0, 300, 18), "corner:blocks-300"));
+        explicit.push((3, g(2, 41, 40, 0, 8, 1, 600, 19), "corner:blocks-600"));
+        explicit.push((1, g(3, 6, 6, 6, 8, 0, 257, 20), "corner:blocks-257"));
+        explicit.push((2, g(2, 67, 63, 0, 3, 1, 3, 21), "large:4k-model"));
+    }
+    for (threads, p, key) in explicit {
+        let mut p = p;
+        p.seed ^= ctx.seed.wrapping_mul(0x9E37_79B9);
+        let (nn, blocks) = gen_mesh(&p);
+        ctx.count(key);
+        ctx.count(&format!("pool:{}", threads));
+        let op = format_op("raw", threads, nn, &blocks);
+        run_op(ctx, &op);
+    }
+    // node ids above 65 536: a strip of triangles around node 65 536 in a mesh of 70 001 nodes
+    {
+        let base = 65_520usize;
+        let mut nodes = vec![];
+        for i in 0..40 {
+            nodes.extend_from_slice(&[base + i, base + i + 1, base + i + 2]);
+        }
+        let blocks = vec![
+            Blk { ty: 1, refs: 1, nodes: vec![65_535, 65_536] },
+            Blk { ty: 2, refs: 40, nodes },
+        ];
+        ctx.count("corner:node-ids-above-65536");
+        let op = format_op("raw", 3, 70_001, &blocks);
+        run_op(ctx, &op);
+    }
+    // --- large meshes, regenerated from parameters: oracle in full, model declines
+    let mut large: Vec<(usize, GenP, &str)> = vec![
+        (2, g(2, 129, 128, 0, 0, 0, 1, 31), "large:16k-quads"),
+        (3, g(2, 91, 91, 0, 8, 1, 3, 32), "large:16k-triangles"),
+        (16, g(2, 4095, 5, 0, 0, 0, 1, 33), "large:20k-rows-of-4096-nodes"),
+        (1, g(2, 181, 182, 0, 0, 1, 100, 34), "large:32k-quads-100-blocks"),
+        (3, g(2, 191, 191, 0, 4, 0, 257, 35), "large:36k-mixed2d-257-blocks"),
+        (2, g(3, 14, 14, 14, 8, 1, 300, 36), "large:16k-tets-300-blocks"),
+        (16, g(3, 33, 33, 34, 0, 0, 1, 37), "large:37k-hexes"),
+        (1, g(3, 21, 20, 20, 3, 1, 600, 38), "large:24k-mixed3d-600-blocks"),
+    ];
+    if !ctx.quick() {
+        large.extend(vec![
+            (2, g(2, 265, 265, 0, 0, 0, 1, 41), "large:70k-quads"),
+            (3, g(2, 265, 264, 0, 2, 1, 256, 42), "large:70k-mixed2d-256-blocks"),
+            (16, g(2, 375, 374, 0, 0, 0, 2, 43), "large:140k-quads"),
+            (1, g(2, 8191, 3, 0, 0, 0, 1, 44), "large:24k-rows-of-8192-nodes"),
+            (2, g(2, 8191, 9, 0, 8, 0, 255, 45), "large:147k-triangles-rows-of-8192-nodes"),
+            (3, g(3, 30, 30, 30, 8, 0, 1, 46), "large:162k-tets"),
+            (16, g(3, 41, 41, 42, 0, 1, 100, 47), "large:70k-hexes-100-blocks"),
+            (2, g(3, 18, 18, 17, 8, 0, 257, 48), "large:33k-tets-257-blocks"),
+            (3, g(2, 128, 128, 0, 0, 0, 1, 49), "large:16384-quads-exact"),
+            (1, g(2, 128, 129, 0, 0, 0, 2, 50), "large:16k-quads"),
+            (16, g(3, 32, 32, 33, 5, 1, 600, 51), "large:130k-mixed3d-600-blocks"),
+            (2, g(2, 190, 192, 0, 8, 1, 1, 52), "large:73k-triangles"),
+        ]);
+    }
+    for (threads, p, key) in large {
+        let mut p = p;
+        p.seed ^= ctx.seed.wrapping_mul(0x9E37_79B9);
+        ctx.count(key);
+        ctx.count(&format!("pool:{}", threads));
+        let op = format_gen(threads, &p);
+        run_op(ctx, &op);
+    }
 }
 
 // ------------------------------------------------------------------ protocol
@@ -553,6 +752,43 @@ fn definition(blocks: &[Blk]) -> Option<(usize, Vec<BTreeSet<usize>>, bool)> {
     Some((d, cells, degenerate))
 }
 
+/// The same definition in O(sum of degrees): shared nodes are counted through a
+/// node -> cells index (stamp array), then compared with the threshold `d >= 1`.
+fn reference_rows_fast(d: usize, cells: &[BTreeSet<usize>]) -> Vec<Vec<usize>> {
+    let n = cells.len();
+    let max_node = cells.iter().filter_map(|c| c.iter().next_back()).max().map(|&m| m + 1).unwrap_or(0);
+    let mut n2c: Vec<Vec<u32>> = vec![Vec::new(); max_node];
+    for (i, c) in cells.iter().enumerate() {
+        for &x in c {
+            n2c[x].push(i as u32);
+        }
+    }
+    let mut cnt = vec![0u32; n];
+    let mut touched: Vec<usize> = vec![];
+    let mut rows = Vec::with_capacity(n);
+    for (i, c) in cells.iter().enumerate() {
+        touched.clear();
+        for &x in c {
+            for &j in &n2c[x] {
+                let j = j as usize;
+                if j != i {
+                    if cnt[j] == 0 {
+                        touched.push(j);
+                    }
+                    cnt[j] += 1;
+                }
+            }
+        }
+        let mut row: Vec<usize> = touched.iter().cloned().filter(|&j| cnt[j] as usize >= d).collect();
+        row.sort_unstable();
+        for &j in &touched {
+            cnt[j] = 0;
+        }
+        rows.push(row);
+    }
+    rows
+}
+
 /// Structural claims: one failure signature or none. Claims that depend on the
 /// shared-node count are returned separately (`semantic`), because degenerate
 /// elements are outside the property (counted, not failed).
@@ -602,17 +838,25 @@ fn check(
         }
     }
     if structural.is_none() && o.rows == n {
+        let fast = if d >= 1 && d != usize::MAX { Some(reference_rows_fast(d, &cells)) } else { None };
         for i in 0..n {
             for &j in row(i) {
                 if !row(j).contains(&i) {
                     fail(&mut semantic, "asymmetric", format!("{} in row {} but not conversely", j, i));
                 }
             }
-            if d >= 1 {
-                let want: Vec<usize> = (0..n)
-                    .filter(|&j| j != i && cells[i].intersection(&cells[j]).count() >= d)
-                    .collect();
-                if want != row(i) {
+            if let Some(fast) = &fast {
+                let want = &fast[i];
+                if n <= 400 {
+                    // small meshes: the literal O(n^2) definition, which also validates the fast form
+                    let slow: Vec<usize> = (0..n)
+                        .filter(|&j| j != i && cells[i].intersection(&cells[j]).count() >= d)
+                        .collect();
+                    if slow != *want {
+                        fail(&mut structural, "oracle-internal", format!("row {}: {:?} vs {:?}", i, slow, want));
+                    }
+                }
+                if want.as_slice() != row(i) {
                     fail(
                         &mut semantic,
                         "adjacency-mismatch",
@@ -633,8 +877,35 @@ fn check(
     (structural, semantic, degenerate, d)
 }
 
+fn fnv(h: &mut u64, xs: &[usize]) {
+    for &x in xs {
+        for b in (x as u64).to_le_bytes() {
+            *h ^= b as u64;
+            *h = h.wrapping_mul(0x0000_0100_0000_01B3);
+        }
+    }
+}
+
 pub fn run_op(ctx: &mut Ctx, op: &str) {
     if ctx.hang_limit_reached() {
+        return;
+    }
+    if op.starts_with("dualgen") {
+        let Some((threads, g)) = parse_gen(op) else {
+            ctx.record(op.to_string(), "bad-op".into(), false);
+            return;
+        };
+        let (nn, blocks) = gen_mesh(&g);
+        let space = if g.kind == 3 { 3 } else { 2 };
+        let mesh = match catch(|| build_mesh(false, space, nn, &blocks)) {
+            Caught::Ok(Ok(m)) => m,
+            _ => {
+                ctx.record(op.to_string(), "unbuildable".into(), false);
+                return;
+            }
+        };
+        ctx.count(&format!("large:blocks:{}", match blocks.len() { 0..=9 => "<10", 10..=255 => "10-255", 256..=999 => "256-999", _ => ">=1000" }));
+        execute(ctx, op, &mesh, nn, blocks, threads, space, true);
         return;
     }
     let Some((medit, threads, nn, blocks)) = parse_op(op) else {
@@ -674,9 +945,25 @@ pub fn run_op(ctx: &mut Ctx, op: &str) {
             op = format_op(if medit { "medit" } else { "raw" }, threads, nn, &blocks);
         }
     }
-    let op = op.as_str();
+    execute(ctx, op.as_str(), &mesh, nn, blocks, threads, space, false);
+}
+
+/// Run `dual` (and the two counts) on the built mesh, record the canonical line (`compact`: a
+/// digest instead of the arrays) and evaluate the oracle.
+#[allow(clippy::too_many_arguments)]
+fn execute(
+    ctx: &mut Ctx,
+    op: &str,
+    mesh: &mesh_io::Mesh,
+    nn: usize,
+    blocks: Vec<Blk>,
+    threads: usize,
+    space: usize,
+    compact: bool,
+) {
+    let mesh = mesh;
     let wf = blocks.iter().all(|b| b.refs == b.count());
-    let o = match observe(&mesh, threads) {
+    let o = match observe(mesh, threads) {
         Caught::Ok(o) => o,
         Caught::Panic(m) => {
             // the only panic the model predicts: a node id that is not a node of the mesh
@@ -694,11 +981,12 @@ pub fn run_op(ctx: &mut Ctx, op: &str) {
     };
     // the other pool sizes must give the same arrays (schedules)
     let mut pool_dep = None;
-    for &t in &POOLS {
+    let pools: &[usize] = if compact || !POOLS.contains(&threads) { &[1, 2, 3, 16] } else { &POOLS };
+    for &t in pools {
         if t == threads {
             continue;
         }
-        match observe(&mesh, t) {
+        match observe(mesh, t) {
             Caught::Ok(o2) => {
                 if o2.indptr != o.indptr || o2.indices != o.indices || o2.rows != o.rows {
                     pool_dep = Some(format!("pool {} and pool {} give different arrays", threads, t));
@@ -707,26 +995,58 @@ pub fn run_op(ctx: &mut Ctx, op: &str) {
             _ => pool_dep = Some(format!("pool {} panics, pool {} does not", t, threads)),
         }
     }
+    if compact || !POOLS.contains(&threads) {
+        // reuse: the same pool serves this mesh, another one, and this mesh again
+        ctx.count("reuse");
+        let other = mesh_io::Mesh::from_raw_parts(
+            2,
+            coords(2, 4),
+            vec![0; 4],
+            vec![(mesh_io::ElementType::Triangle, vec![0, 1, 2, 1, 2, 3], vec![0, 0])],
+        );
+        let again = catch(|| {
+            with_pool(threads, || {
+                let a = coupe_tools::dual(mesh);
+                let b = coupe_tools::dual(&other);
+                let c = coupe_tools::dual(mesh);
+                a.indptr().raw_storage() == c.indptr().raw_storage()
+                    && a.indices() == c.indices()
+                    && a.indices() == &o.indices[..]
+                    && b.indices() == [1, 0]
+            })
+        });
+        if !matches!(again, Caught::Ok(true)) {
+            pool_dep = Some("the same pool gives different arrays on a second call".into());
+        }
+    }
     let bary = match catch(|| {
         if space == 3 {
-            coupe_tools::barycentres::<3>(&mesh).len()
+            coupe_tools::barycentres::<3>(mesh).len()
         } else {
-            coupe_tools::barycentres::<2>(&mesh).len()
+            coupe_tools::barycentres::<2>(mesh).len()
         }
     }) {
         Caught::Ok(n) => Some(n),
         _ => None,
     };
-    let used = coupe_tools::used_element_count(&mesh);
-    let out = format!(
-        "ok {} | {} | {} | d{} | bary {} used {}",
-        o.rows,
-        join(&o.indptr),
-        join(&o.indices),
-        o.data_len,
-        bary.map(|n| n.to_string()).unwrap_or_else(|| "panic".into()),
-        used
-    );
+    let used = coupe_tools::used_element_count(mesh);
+    let bary_s = bary.map(|n| n.to_string()).unwrap_or_else(|| "panic".into());
+    let out = if compact {
+        let mut h = 0xCBF2_9CE4_8422_2325u64;
+        fnv(&mut h, &o.indptr);
+        fnv(&mut h, &o.indices);
+        format!("ok {} nnz {} h {:016x} | d{} | bary {} used {}", o.rows, o.indices.len(), h, o.data_len, bary_s, used)
+    } else {
+        format!(
+            "ok {} | {} | {} | d{} | bary {} used {}",
+            o.rows,
+            join(&o.indptr),
+            join(&o.indices),
+            o.data_len,
+            bary_s,
+            used
+        )
+    };
     let (structural, semantic, degenerate, d) = check(&blocks, &o, bary, used);
     if d == 1 {
         ctx.count(if used != o.rows { "edges-only:used-count-differs" } else { "edges-only:counts-equal" });
